@@ -96,7 +96,7 @@ FAMILIES = {
     "C03": ["own", "class", "subscribe", "compose", "srcfac", "monitor", "refcount"],
     "C43": ["lockset"],
     "C42": ["catchsched"],
-    "C09": ["guard", "op"],
+    "C09": ["guard", "op", "subscribe"],
     "C30": ["tramp"],
     "C35": ["periodic", "catchsched", "srcwire", "evloop"],
     "C37": ["srcfac", "srcwire"],
